@@ -82,6 +82,17 @@ func genConf(r *core.Rng) *ConfSpec {
 	return c
 }
 
+// coordinatedFrozen is the coordinated main-net list, copied entry by entry
+// when the process starts - before any configuration file has been loaded, so
+// that nothing a later load does to the node's own copy can reach it.
+var coordinatedFrozen = func() []config.FrozenAddress {
+	var out []config.FrozenAddress
+	for _, fa := range config.MainNetFrozenAddresses() {
+		out = append(out, config.FrozenAddress{Address: string(append([]byte(nil), fa.Address...)), DisableStartHeight: fa.DisableStartHeight})
+	}
+	return out
+}()
+
 func mainnetName(n string) bool {
 	switch strings.ToLower(n) {
 	case "", "mainnet", "main":
@@ -147,7 +158,7 @@ func (s *sim) confStep(cs *ConfSpec) {
 				cs.Net, cs.NoNet, cs.FH, cs.RH, got.CrossChainUTXOFreezeHeight, got.CrossChainUTXORestrictionHeight, config.MainNetCrossChainUTXOFreezeHeight, config.MainNetCrossChainUTXORestrictionHeight)
 		}
 		c.Check()
-		want := config.MainNetFrozenAddresses()
+		want := coordinatedFrozen
 		same := len(got.FrozenAddresses) == len(want)
 		for i := 0; same && i < len(want); i++ {
 			same = got.FrozenAddresses[i].Address == want[i].Address && got.FrozenAddresses[i].DisableStartHeight == want[i].DisableStartHeight
